@@ -7,17 +7,17 @@ import Univers.Scheme.Semver
 namespace Univers.Driver
 
 open Univers.Semver in
-def semverConstruct : String → Option (List Char → Except Semver.PErr Semver.Raw)
+private def semverConstruct : String → Option (List Char → Except Semver.PErr Semver.Raw)
   | "semver" => some construct
   | "golang" => some constructGolang
   | "composer" => some constructComposer
   | "nginx" => some constructNginx
   | _ => none
 
-def bit (b : Bool) : String := if b then "1" else "0"
+private def semverBit (b : Bool) : String := if b then "1" else "0"
 
-def opsBits {R : Type} (o : VOps R) (a b : R) : String :=
-  bit (o.eq a b) ++ bit (o.ne a b) ++ bit (o.lt a b) ++ bit (o.le a b) ++ bit (o.gt a b) ++ bit (o.ge a b)
+private def semverBits {R : Type} (o : VOps R) (a b : R) : String :=
+  semverBit (o.eq a b) ++ semverBit (o.ne a b) ++ semverBit (o.lt a b) ++ semverBit (o.le a b) ++ semverBit (o.gt a b) ++ semverBit (o.ge a b)
 
 def semverCmd : List String → Option String
   | ["vparse", sch, h] =>
@@ -34,8 +34,8 @@ def semverCmd : List String → Option String
     | some c =>
       match c (unhex ha), c (unhex hb) with
       | .ok a, .ok b =>
-        let h := if Semver.hashable then bit (Semver.hashKey a == Semver.hashKey b) else "x"
-        some (ordStr (Semver.vercmp a b) ++ " " ++ opsBits Semver.verOps a b ++ " " ++ h)
+        let h := if Semver.hashable then semverBit (Semver.hashKey a == Semver.hashKey b) else "x"
+        some (ordStr (Semver.vercmp a b) ++ " " ++ semverBits Semver.verOps a b ++ " " ++ h)
       | _, _ => some "invalid"
   | _ => none
 
